@@ -192,3 +192,38 @@ Lemma gen_fileName_not_temp : forall (sum : list Z -> list Z) (hexenc : list Z -
   (forall l, hexenc l = hex (map Z.to_N l)) ->
   is_temp (gen_crl_FileCache_fileName sum hexenc c url) = false.
 Proof. intros. rewrite gen_fileName_key by assumption. apply key_not_temp. Qed.
+
+(* ---------- crl.FileCache.Get: the one access to the directory ---------- *)
+Section GetAccess.
+Variable sum : list Z -> list Z.
+Variable hexenc : list Z -> string.
+Variable join : list string -> string.
+Variable parse : list Z -> ptr x509_RevocationList * option err.
+Variable now : Z.
+Variable unmarshal : list Z -> crl_fileCacheContent -> crl_fileCacheContent * option err.
+
+(* the path Get reads: <root>/<fileName url> *)
+Definition get_path (c : crl_FileCache) (url : string) : string :=
+  join [FileCache_root c; gen_crl_FileCache_fileName sum hexenc c url].
+
+(* Get consults the file system through ONE path: two behaviours of os.ReadFile that agree on the
+   key path give the same result *)
+Lemma gen_Get_reads_key_only : forall (rf rf' : string -> list Z * option err) c url,
+  rf (get_path c url) = rf' (get_path c url) ->
+  gen_crl_FileCache_Get sum hexenc join rf parse now unmarshal c url =
+  gen_crl_FileCache_Get sum hexenc join rf' parse now unmarshal c url.
+Proof. intros rf rf' c url H. unfold gen_crl_FileCache_Get. fold (get_path c url). rewrite H. reflexivity. Qed.
+
+(* os.ReadFile failed: a miss exactly when the error is (wraps) fs.ErrNotExist, otherwise an error
+   that is not a miss; nothing is decoded *)
+Lemma gen_Get_read_error : forall (rf : string -> list Z * option err) c url e,
+  snd (rf (get_path c url)) = Some e ->
+  exists r, gen_crl_FileCache_Get sum hexenc join rf parse now unmarshal c url = Some (PNil, r) /\
+    if err_is (Some e) fs_ErrNotExist then r = crl_ErrCacheMiss
+    else exists f w, r = Some (Err "fmt" f w).
+Proof.
+  intros rf c url e H. unfold gen_crl_FileCache_Get. fold (get_path c url).
+  destruct (rf (get_path c url)) as [bytes oe]. cbn [snd] in H. subst oe. cbn [is_none negb].
+  destruct (err_is (Some e) fs_ErrNotExist); eexists; (split; [reflexivity|]); [reflexivity|eauto].
+Qed.
+End GetAccess.
